@@ -2,6 +2,7 @@ import PhyVerif.Driver.Json
 import PhyVerif.Model.C11
 import PhyVerif.Spec.C11
 import PhyVerif.Model.C12
+import PhyVerif.Model.C12b
 import PhyVerif.Driver.C16
 namespace PhyVerif.Driver
 open Lean PhyVerif
@@ -58,6 +59,7 @@ def runC12 (op : String) (j : Json) : R Json := do
     let pcInd ← fld j "pc_ind" >>= asList (asList (asList asNat))
     let tfInd ← fld j "tf_ind" >>= asList (asList (asList asNat))
     let toffs ← getNats j "template_offsets"
+    let stl ← if hasFld j "spike_templates" then getNatss j "spike_templates" else pure []
     let wm := ((ncs.zip toks).map fun p => mkSquare p.2 p.1)
     let sim := ((nts.zip toks).map fun p => mkSquare p.2 p.1)
     let params ← fld j "params" >>= asList asPairN
@@ -69,7 +71,8 @@ def runC12 (op : String) (j : Json) : R Json := do
       ("templates", jList (jList jInts) (C12.mergeTemplates ts)),
       ("channel_index_offsets", jNats (C12.chanIndexOffsets maps)),
       ("pc_ind", jList jNats (C12.mergePcInd maps pcInd)),
-      ("tf_ind", jList jNats (C12.shiftTables tfInd toffs)),
+      ("tf_ind", jList jNats (if hasFld j "spike_templates" then C12.mergeTfInd stl nts tfInd else C12.shiftTables tfInd toffs)),
+      ("template_offsets", jNats (C11.templateOffsets stl nts)),
       ("whitening", jList jInts (C12.blockDiag wm)),
       ("similar", jList jInts (C12.blockDiag sim)),
       ("params", jOpt jPairN (C12.mergeParams params))])
